@@ -192,9 +192,17 @@ def run(F, rep, tier):
                 for c_ in v_.get("payload_len_classes", []) or []:
                     newest = max(newest, tuple(int(x) for x in c_["since"].split(".")[:2]))
         _scan(sp_.get("fields") if isinstance(sp_.get("fields"), list) else None)
-    rep.ob("E5.max.oracle", mx is not None and tuple(mx) == (newest[0], newest[1], 0), "io::slippi::MAX_SUPPORTED_VERSION", "oracle",
-           "MAX_SUPPORTED_VERSION is %s but the newest version whose fields are known (field oracle) is %d.%d.0: games above that lose their newer fields on read and must be refused" % (
-               ".".join(str(x) for x in (mx or ())), newest[0], newest[1]), sample={"oracle_newest": list(newest)})
+    # .. or of the code's own field tables when they are ahead of the oracle (a genuine upgrade adds the new version's fields,
+    # i.e. a `gte(M, m)` gate for it, together with the new bound)
+    try:
+        Mg = _model.Model(F, rep, want=("read_push",))
+        code_newest = max([v for v in Mg.classes if v < (255, 255)] + [(0, 0)])
+    except Exception:
+        code_newest = (0, 0)
+    known = max(newest, tuple(code_newest[:2]))
+    rep.ob("E5.max.oracle", mx is not None and tuple(mx) == (known[0], known[1], 0), "io::slippi::MAX_SUPPORTED_VERSION", "oracle",
+           "MAX_SUPPORTED_VERSION is %s but the newest version whose fields are known (field oracle %d.%d, newest gate in the field tables %d.%d) is %d.%d.0: games above that lose their newer fields on read and must be refused" % (
+               ".".join(str(x) for x in (mx or ())), newest[0], newest[1], code_newest[0], code_newest[1], known[0], known[1]), sample={"oracle_newest": list(newest), "code_newest_gate": list(code_newest[:2])})
     for fn in WRITERS:
         guard_rule(F, G, rep, fn)
     version_refusals(F, G, rep)
